@@ -36,7 +36,9 @@ def wrapTrace (cols : List Column) (outs : List ColOut) : List Json :=
 /--
 * `c14.wrap {text, width}` -> the lines of the `textwrap.wrap` model (or `ValueError`);
 * `c14.render {style, header_format?, header: [..]|null, rows: [[..]], n, alignments: [..],
-  width, indent}` -> `{lines, column_lengths, wraps}` (or the exception name);
+  width, indent}` -> `{lines, column_lengths, wraps}` (or the exception name), plus the field `wf`:
+  the hypotheses of the rendering theorems of Props/C14 decided for this style, table, alignment list
+  and width (`Props.C14.wf_decides`);
 * `c14.share {l, a, w}` -> `int(round(l / a * w))` as the executable model computes it.
 -/
 def handle (m : String) (j : Json) : Option (R Json) :=
@@ -69,7 +71,13 @@ def handle (m : String) (j : Json) : Option (R Json) :=
           let lines ← render floatShare st given t width indent
           pure (Json.mkObj [("lines", jStrs lines), ("column_lengths", jList jNat (outs.map (·.width))),
                             ("wraps", .arr (wrapTrace (initRows t.n t.allRows) outs).toArray)])
-        return jExcept id res
+        let wf := Json.mkObj [("feasible", .bool (feasibleB st t width indent)),
+                              ("aligns", .bool (decide (given.length ≤ t.n))),
+                              ("style_ok", .bool (styleOkB st t.header.isSome)),
+                              ("n_pos", .bool (decide (1 ≤ t.n))),
+                              ("right_solid", .bool (rightSolidB st)),
+                              ("all", .bool (wfB st given t width indent))]
+        return (jExcept id res).setObjVal! "wf" wf
   | _ => none
 
 end Clikit.Drv.C14
